@@ -56,3 +56,99 @@ def vfreebusy(start, end, dtstart=None, dtend=None, periods=()):
     if periods:
         return ("freebusy", any(start < pe and end > ps for (ps, pe) in periods))
     return ("nothing", False)
+
+
+# ---------------------------------------------------------------------------------------------------
+# RFC 4791 9.7.1 - 9.7.5: filter semantics.
+#   component  c  = {"name", "props": {NAME: prop}, "subs": [c...]}
+#   prop          = {"kind": "text"|"cats"|"dt"|"date", "value", "params": {NAME: str}}
+#   comp-filter   = {"name", "is_not_defined", "time_range": (start, end)|None, "comps": [...], "props": [...]}
+#   prop-filter   = {"name", "is_not_defined", "time_range", "text": tm|None, "params": [param-filter]}
+#   param-filter  = {"name", "is_not_defined", "text": tm|None}
+#   tm            = {"text", "collation", "negate"}
+
+from . import rfc6352 as _coll
+
+
+def text_match(tm, value: str, contains=True) -> bool:
+    """9.7.5: substring match under the collation, optionally negated."""
+    r = _coll.collate(tm["collation"], value, tm["text"], "contains" if contains else "equals")
+    return (not r) if tm["negate"] else r
+
+
+def component_time_range(c, start, end):
+    p = c["props"]
+
+    def inst(n):
+        return p[n]["value"] if n in p else None
+    if c["name"] == "VEVENT":
+        if "DTSTART" not in p:
+            return False
+        return vevent(start, end, inst("DTSTART"), p["DTSTART"]["kind"] == "dt", inst("DTEND"), inst("DURATION"))[1]
+    if c["name"] == "VTODO":
+        r = vtodo(start, end, inst("DTSTART"), inst("DURATION"), inst("DUE"), inst("COMPLETED"), inst("CREATED"))[1]
+        return bool(r)
+    if c["name"] == "VJOURNAL":
+        return vjournal(start, end, inst("DTSTART"), "DTSTART" in p and p["DTSTART"]["kind"] == "dt")[1]
+    return False
+
+
+def match_param_filter(pf, prop, contains=True):
+    if pf["is_not_defined"]:
+        return pf["name"] not in prop["params"]
+    if pf["name"] not in prop["params"]:
+        return False
+    if pf["text"] is None:
+        return True
+    return text_match(pf["text"], prop["params"][pf["name"]], contains)
+
+
+def match_prop_filter(pf, c, contains=True):
+    if pf["is_not_defined"]:
+        return pf["name"] not in c["props"]
+    if pf["name"] not in c["props"]:
+        return False
+    prop = c["props"][pf["name"]]
+    if pf["time_range"] is not None:
+        (start, end) = pf["time_range"]
+        if prop["kind"] not in ("dt", "date"):
+            return False
+        # 9.9: start is inclusive, end is non-inclusive
+        if not (start <= prop["value"] < end):
+            return False
+    if pf["text"] is not None:
+        if prop["kind"] == "text":
+            if not text_match(pf["text"], prop["value"], contains):
+                return False
+        elif prop["kind"] == "cats":
+            hit = any(_coll.collate(pf["text"]["collation"], v, pf["text"]["text"], "contains" if contains else "equals")
+                      for v in prop["value"])
+            if pf["text"]["negate"]:
+                hit = not hit
+            if not hit:
+                return False
+        else:
+            return False
+    for q in pf["params"]:
+        if not match_param_filter(q, prop, contains):
+            return False
+    return True
+
+
+def match_comp_filter(cf, scope, contains=True):
+    """scope: the components among which the filter looks for one named cf['name']."""
+    cands = [c for c in scope if c["name"] == cf["name"]]
+    if cf["is_not_defined"]:
+        return not cands
+    for c in cands:
+        if cf["time_range"] is not None and not component_time_range(c, *cf["time_range"]):
+            continue
+        if all(match_comp_filter(sub, c["subs"], contains) for sub in cf["comps"]) and all(
+                match_prop_filter(pf, c, contains) for pf in cf["props"]):
+            return True
+    return False
+
+
+def match_filter(top_filters, calendar, contains=True):
+    """The CALDAV:filter element: every top-level comp-filter applies to the calendar object itself."""
+    return all(match_comp_filter(cf, [calendar], contains) for cf in top_filters)
